@@ -192,3 +192,42 @@ def exactly_once(events, xs):
         if len(starts) != 1:
             problems.append((x, f"{len(starts)} start records"))
     return problems
+
+
+def quiescent_hang(case, h, rounds=5):
+    """Decide a time-out on quiescence certificates, never on the clock alone: the scheduler's loop is idle over
+    several certificates, its job states do not move, no job process of the workspace is alive, no token file
+    exists - and yet a job is not final.  Returns a description, or None (= inconclusive)."""
+    import time as _t
+
+    certs = []
+    for _ in range(rounds):
+        c = case.certificates(h)
+        if c:
+            certs.append(c)
+        _t.sleep(0.3)
+    if len(certs) < rounds - 1:
+        return None
+    same = all(c.get("jobs") == certs[0].get("jobs") for c in certs)
+    idle = all(c.get("ready", 1) == 0 for c in certs)
+    live = [p for p in case.job_pids() if case.alive(p)]
+    notfinal = [k for k, s in (certs[-1].get("jobs") or {}).items() if s not in ("DONE", "ERROR")]
+    if same and idle and not live and not case.token_files() and notfinal:
+        return f"scheduler quiescent for {len(certs)} certificates, no live job process, no token file, jobs not final: {certs[-1].get('jobs')}"
+    return None
+
+
+def capacity_sweep(events, amounts, total):
+    """Running sum of the amounts held between start and end records, in log order."""
+    held = {}
+    worst = 0
+    for kind, x, pid, ok in events:
+        if kind == "start":
+            held[(x, pid)] = amounts.get(x, 0)
+            cur = sum(held.values())
+            if cur > total:
+                return cur, dict((f"{k[0]}", v) for k, v in held.items())
+            worst = max(worst, cur)
+        else:
+            held.pop((x, pid), None)
+    return None
